@@ -7,7 +7,7 @@ prop, k = sys.argv[1], sys.argv[2]
 checks = sys.argv[3:] or [prop]
 rnd = os.environ.get("SEEDROUND", "")
 src = f"/tmp/seedwork{rnd}-{prop}/{k}"
-knum = k if not rnd else str(int(k) + (5 if rnd in ("4", "5") else 3))
+knum = k if not rnd else str(int(k) + (7 if rnd == "6" else 5 if rnd in ("4", "5") else 3))
 if os.environ.get("IMPORT_CONFIRMED_ALREADY") != "1":  # set only after a tools/confirm_seed.sh run of this seed said CONFIRMED
     r = subprocess.run(["/verif/tools/confirm_seed.sh", prop, k], capture_output=True, text=True)
     print(r.stdout.strip())
